@@ -377,6 +377,9 @@ def direct_wrong(c, v, obj, rng):
     if path[0] == 'call' and path[1] in (('name', 'tuple'), ('name', 'list')) and len(path[2]) == 1 and path[2][0][0] != 'gen':
         return ("the path is tuple(<name>): a name is itself a tuple of parts, so this explodes it into one path element per part "
                 "instead of the one-element path (<name>,)")
+    if obj == ('name', 'resource') and path == c.parse("self._resources[id(resource)][1]"):
+        return ("the path is the stored name itself: a name is a tuple of parts, so ResourceInfo takes each part for a path element "
+                "instead of the one-element path (<name>,)")
     if width != c.parse("self.data_width"):
         return None
     if rng is not None and (start, end) == (('attr', rng, 'stop'), ('attr', rng, 'start')):
